@@ -68,6 +68,7 @@
 #include "memtable.h"
 #include "version_edit.h"
 #include "write_batch.h"
+#include "db_impl.h"
 
 /* Page faults are very expensive on the verification host and ASan's default 256 MiB
  * quarantine plus periodic release-to-OS keeps touching fresh pages; a 16 MiB quarantine
@@ -82,10 +83,10 @@ __asan_default_options(void) {
 #define ALLOC_CAP ((size_t)256 << 20) /* allocation seam: a single request above this is answered NULL */
 
 enum { EP_BLK, EP_BLKI, EP_FOOT, EP_FOOTP, EP_HAND, EP_FILT, EP_SNAP, EP_EDIT, EP_BAT, EP_BATH,
-       EP_LOG, EP_LOGNC, EP_LOGP, EP_PKEY, EP_FNAME, NEP };
+       EP_LOG, EP_LOGNC, EP_LOGP, EP_PKEY, EP_FNAME, EP_EDITDB, NEP };
 
 static const char *EPN[NEP] = {"blk", "blki", "foot", "footp", "hand", "filt", "snap", "edit", "bat", "bath",
-                               "log", "lognc", "logp", "pkey", "fname"};
+                               "log", "lognc", "logp", "pkey", "fname", "editdb"};
 
 static uint64_t n_cases[NEP], n_accept[NEP], n_items[NEP];
 static uint64_t n_seed_rejected;
@@ -642,12 +643,100 @@ ep_fname(const uint8_t *p, size_t n, uint64_t *items) {
   return ok | (ok ? ((int)type + 1) << 1 : 0);
 }
 
+/* ---- a version edit as the database meets it: appended (with valid log framing) to the live MANIFEST of a
+ * small real database, then ldb_open replays it into the version set (decode AND apply) ---------------- */
+
+static vfs_t *edb_tmpl;
+static char edb_manifest[300];
+static size_t edb_len;
+static const uint8_t *edb_p;
+static size_t edb_n;
+static int edb_rc;
+
+static void
+edb_build_body(void *arg) {
+  ldb_dbopt_t o = *ldb_dbopt_default;
+  ldb_t *db = NULL;
+  ldb_slice_t k, v;
+  (void)arg;
+  o.create_if_missing = 1;
+  o.info_log = ldb_logger_create(NULL, NULL);
+  if (ldb_open("/vfs/e", &o, &db) != LDB_OK) vh_die("c18: editdb template: open failed");
+  k = ldb_slice("apple", 5); v = ldb_slice("1", 1);
+  if (ldb_put(db, &k, &v, NULL) != LDB_OK) vh_die("c18: editdb template: put failed");
+  ldb_test_compact_memtable(db);
+  k = ldb_slice("pear", 4);
+  ldb_put(db, &k, &v, NULL);
+  ldb_close(db);
+  ldb_logger_destroy(o.info_log);
+}
+
+static void
+edb_open_body(void *arg) {
+  ldb_dbopt_t o = *ldb_dbopt_default;
+  ldb_t *db = NULL;
+  ldb_wfile_t *wf = NULL;
+  ldb_writer_t lw;
+  ldb_slice_t rec = ldb_slice(edb_p, edb_n);
+  (void)arg;
+  o.info_log = ldb_logger_create(NULL, NULL);
+  if (ldb_appendfile_create(edb_manifest, &wf) != LDB_OK) vh_die("c18: editdb: cannot append to the MANIFEST");
+  ldb_writer_init(&lw, wf, edb_len);
+  ldb_writer_add_record(&lw, &rec);
+  ldb_wfile_close(wf);
+  ldb_wfile_destroy(wf);
+  o.paranoid_checks = 1;
+  edb_rc = ldb_open("/vfs/e", &o, &db);
+  if (edb_rc == LDB_OK) {
+    ldb_iter_t *it = ldb_iterator(db, NULL);
+    int c = 0;
+    for (ldb_iter_first(it); ldb_iter_valid(it) && c < 100; ldb_iter_next(it)) c++;
+    ldb_iter_destroy(it);
+    ldb_close(db);
+  }
+  ldb_logger_destroy(o.info_log);
+}
+
+static int
+ep_editdb(const uint8_t *p, size_t n, uint64_t *items) {
+  sch_cfg_t c;
+  vfs_t *v, *prev = vfs_cur;
+  memset(&c, 0, sizeof(c));
+  c.step_max = 4000000;
+  if (!edb_tmpl) {
+    char names[64][64];
+    int nn, i;
+    edb_tmpl = vfs_new();
+    vfs_use(edb_tmpl);
+    if (sch_run(edb_build_body, NULL, &c) != SCH_OK) vh_die("c18: editdb template did not complete");
+    nn = vfs_list(edb_tmpl, "/vfs/e", names, 64);
+    for (i = 0; i < nn; i++)
+      if (strncmp(names[i], "MANIFEST-", 9) == 0) {
+        snprintf(edb_manifest, sizeof(edb_manifest), "/vfs/e/%s", names[i]);
+        edb_len = vfs_inode(edb_tmpl, vfs_lookup(edb_tmpl, edb_manifest))->len;
+      }
+    if (!edb_manifest[0]) vh_die("c18: editdb template has no MANIFEST");
+    vfs_base_snapshot(edb_tmpl);
+  }
+  v = vfs_clone(edb_tmpl);
+  vfs_use(v);
+  edb_p = p;
+  edb_n = n;
+  edb_rc = -1;
+  if (sch_run(edb_open_body, NULL, &c) != SCH_OK)
+    nonterm("ldb_open on a MANIFEST with this edit appended", 0);
+  vfs_use(prev);
+  vfs_free(v);
+  *items = 1;
+  return (edb_rc == LDB_OK) | ((edb_rc & 0xff) << 1);
+}
+
 static int ep_blk(const uint8_t *p, size_t n, uint64_t *items) { return ep_block(p, n, ldb_bytewise_comparator, 0, items); }
 static int ep_blki(const uint8_t *p, size_t n, uint64_t *items) { return ep_block(p, n, &ikc, 1, items); }
 
 typedef int ep_fn(const uint8_t *p, size_t n, uint64_t *items);
 static ep_fn *const EPF[NEP] = {ep_blk, ep_blki, ep_foot, ep_footp, ep_hand, ep_filt, ep_snap, ep_edit, ep_bat, ep_bath,
-                                ep_log, ep_lognc, ep_logp, ep_pkey, ep_fname};
+                                ep_log, ep_lognc, ep_logp, ep_pkey, ep_fname, ep_editdb};
 
 /* "accepted" bit of an outcome, per entry point (for the counters and the seed self-test) */
 static int
@@ -970,6 +1059,7 @@ seed_edit(int variant, const char *what) {
   }
   ldb_edit_export(&out, &e);
   add_seed(EP_EDIT, out.data, out.size, what);
+  add_seed(EP_EDITDB, out.data, out.size, what);
   ldb_buffer_clear(&out);
   ldb_buffer_clear(&k1);
   ldb_buffer_clear(&k2);
@@ -1680,7 +1770,7 @@ parse_seed(model_t *m, const seed_t *sd) {
     case EP_HAND: return parse_handle(m, sd->p, sd->n);
     case EP_FILT: return parse_filter(m, sd->p, sd->n);
     case EP_SNAP: return parse_snappy(m, sd->p, sd->n);
-    case EP_EDIT: return parse_edit(m, sd->p, sd->n);
+    case EP_EDIT: case EP_EDITDB: return parse_edit(m, sd->p, sd->n);
     case EP_BAT: return parse_batch(m, sd->p, sd->n);
     case EP_LOG: case EP_LOGNC: return parse_log(m, sd->p, sd->n);
     case EP_PKEY: return parse_pkey(m, sd->p, sd->n);
@@ -1811,7 +1901,7 @@ pair_allowed(int ep, const fld_t *a, const fld_t *b) {
   if (drv.thorough)
     return 1;
   /* quick: fields of the same entry / record, for the block, batch, edit, footer and handle seeds */
-  if (!(ep == EP_BLK || ep == EP_BLKI || ep == EP_BAT || ep == EP_EDIT || ep == EP_FOOT || ep == EP_HAND))
+  if (!(ep == EP_BLK || ep == EP_BLKI || ep == EP_BAT || ep == EP_EDIT || ep == EP_EDITDB || ep == EP_FOOT || ep == EP_HAND))
     return 0;
   return a->group >= 0 && a->group == b->group;
 }
